@@ -562,6 +562,10 @@ func (this *LedgerStoreImp) SubmitBlock(block *types.Block, result store.Execute
 		return fmt.Errorf("saveBlock error %s", err)
 	}
 	this.vbftPeerInfoblock = peerInfo
+	if this.GetCurrentHeaderHeight() == block.Header.Height {
+		// no header is ahead of this block: the next header is verified against the set in force after it
+		this.vbftPeerInfoheader = peerInfo
+	}
 	this.delHeaderCache(block.Hash())
 	return nil
 }
@@ -588,6 +592,10 @@ func (this *LedgerStoreImp) AddBlock(block *types.Block, stateMerkleRoot common.
 		return fmt.Errorf("saveBlock error %s", err)
 	}
 	this.vbftPeerInfoblock = peerInfo
+	if this.GetCurrentHeaderHeight() == block.Header.Height {
+		// no header is ahead of this block: the next header is verified against the set in force after it
+		this.vbftPeerInfoheader = peerInfo
+	}
 	this.delHeaderCache(block.Hash())
 	return nil
 }
